@@ -386,7 +386,8 @@ def check(a, prop, t0):
     if os.environ.get("VERIF_FAMILY_FILTER"):      # development aid: examine only the programs whose description contains the text
         items = [it for it in items if os.environ["VERIF_FAMILY_FILTER"] in family(prop).describe(it)]
     # every program is also run for real: up to 4 (quick) / 10 (thorough) of its paths, inputs from models of the path conditions
-    jobs = [(i, it, 200 if prop == "C17" else (4 if a.tier == "quick" else 10)) for i, it in enumerate(items)]
+    # C17: every failing path; C14: the meaning of the string methods is compared with the real interpreter path by path, so more of them
+    jobs = [(i, it, 200 if prop == "C17" else (12 if prop == "C14" else (4 if a.tier == "quick" else 10))) for i, it in enumerate(items)]
     log("  %s: %d programs (exhaustive to depth %d, seeded sample beyond)" % (prop, len(jobs), full_depth))
     with multiprocessing.Pool(15) as pool:
         results = pool.map(work, jobs, chunksize=4)
